@@ -6,7 +6,7 @@ open Scenic.LTL.Syntax
 /-- src/scenic/syntax/scenic.gram, rules scenic_until … scenic_temporal_group -/
 def gram : GramCfg :=
   { prefixOps := [("next", "Next"), ("eventually", "Eventually"), ("always", "Always")],
-    groupFollow := ["until", "or", "and", ")", ";", "<nl>"],
+    groupFollow := ["until", "or", "and", "implies", ")", ";", "<nl>"],
     impliesRhsPrefix := true,
     orOperandPrefix := true,
     andOperandPrefix := true,
